@@ -21,6 +21,9 @@ Qed.
 Lemma is_acct_true a t : is_acct a t = true <-> sender t = a.
 Proof. unfold is_acct. apply N.eqb_eq. Qed.
 
+Lemma is_acct_false_iff a t : is_acct a t = false <-> sender t <> a.
+Proof. unfold is_acct. apply N.eqb_neq. Qed.
+
 Lemma memN_In a l : memN a l = true <-> In a l.
 Proof.
   unfold memN. rewrite existsb_exists. split.
